@@ -1,6 +1,6 @@
 """C05 - completeness and fidelity: conformant ceremonies accepted, reported exactly."""
 import json, uuid, cbor2
-from harness import fw, impl, authsim, authcat, authrun, regsim, regcat, regrun, cborgen
+from harness import srcdict, fw, impl, authsim, authcat, authrun, regsim, regcat, regrun, cborgen
 
 TRUSTED = [
     "Coq 8.16.1 kernel; fidelity theorems (returned fields = what the authenticator data says) hold for arbitrary oracles; completeness theorems are stated under oracle completeness hypotheses",
@@ -50,6 +50,12 @@ def run(tier, seed):
             s.count = counters[i % len(counters)] if i % 7 else rng.randrange(2 ** 32)
             s.cred_id = rng.randbytes(idlens[i % len(idlens)] if i % 5 else rng.randrange(1, 1024))
             s.aaguid = bytes([(0x04, 0x10, 0x00, 0xFF, rng.randrange(256), rng.randrange(256))[i % 6]]) + rng.randbytes(15)
+            if i % 7 in (2, 5):
+                # ids are opaque: byte patterns that mean something elsewhere in authenticator data (the known-malformed EdDSA key header, CBOR map
+                # headers, every binary literal the changed source newly mentions) mean nothing inside an id
+                pats = [bytes.fromhex("a301634f4b500327206745643235353139"), bytes.fromhex("a401634f4b500327206745643235353139"), bytes.fromhex("a5010203262001"), b"\xef\xbb\xbf"] + srcdict.blobs()
+                pt = pats[(i // 7) % len(pats)]
+                s.cred_id = (rng.randbytes((0, 1, 5, 40)[(i // 7) % 4]) + pt + rng.randbytes((0, 3)[i % 2]))[:1023]
             if fmt == "packed" and i % 2 == 0:
                 s.k["packed_aaguid_ext"] = True
             if s.flags & 0x80:
@@ -104,7 +110,7 @@ def run(tier, seed):
         if il.startswith("OK") and il != exp:
             chk.violation("authentication result does not report exactly what the authenticator data says", "auth-fields", {"scenario": s.describe(), "impl": il, "expected": exp})
     B.close(); A.close()
-    fw.env_invariance(chk, "reg")          # the same seeded cases under -O / -OO, warnings-as-errors, other TZ / locale, a private CA bundle
+    fw.env_invariance(chk, "auth", "reg")          # the same seeded cases under -O / -OO, warnings-as-errors, other TZ / locale, a private CA bundle
     return fw.finish(chk, ob, br, TRUSTED,
                      ["'conformant' = produced by the ceremony simulator from admissible parameters; RS1 credentials are presented with RS1 in the allowed list",
                       "vendor ids are spelt as in the TCG registry (upper-case hex)"],
